@@ -439,7 +439,9 @@ fn body(ctx: &mut Ctx) {
     }
     // V2
     if ctx.space("V2") {
-        for (i, d) in alpha::dense(&alpha::SIGMA5, 3).iter().enumerate() {
+        let mut v2 = alpha::dense(&alpha::SIGMA5, 3);
+        v2.extend(alpha::dense(&alpha::SIGMA16, 2).into_iter().filter(|d| !d.is_empty()));
+        for (i, d) in v2.iter().enumerate() {
             if !ctx.mine(i as u64) {
                 continue;
             }
